@@ -153,6 +153,13 @@ func check(c Case) (kind, what string, nt bool) {
 		want = c.Data[:c.FaultAt]
 	}
 	nt = (fault && c.FaultAt <= pulled) || len(c.Sizes) > 0
+	if interleave != nil {
+		// another complete load-and-drain happens before this stream is read
+		o2 := ld.Run(c.Loader, bytes.NewReader(interleave))
+		if o2.Stream != nil {
+			_, _ = io.Copy(io.Discard, o2.Stream)
+		}
+	}
 	var got []byte
 	var derr error
 	var stalled bool
@@ -174,6 +181,9 @@ func check(c Case) (kind, what string, nt bool) {
 	}
 	return "", "", nt
 }
+
+// interleave: input of another load to run between a load and the reading of its stream (rapid part only)
+var interleave, pendingData []byte
 
 func firstDiff(a, b []byte) int {
 	for i := 0; i < len(a) && i < len(b); i++ {
@@ -429,6 +439,14 @@ func TestC07(t *testing.T) {
 		}
 		c.Seekable = c.Std == 0 && rapid.IntRange(0, 3).Draw(rt, "seekable") == 0
 		ev.Eval(1)
+		// deferred drain: a quarter of the cases first run ANOTHER load (of the previous case's input) between
+		// this load and the reading of its stream - streams handed out earlier must not be disturbed
+		if pendingData != nil && rapid.IntRange(0, 3).Draw(rt, "interleave") == 0 {
+			interleave = append([]byte(nil), pendingData...)
+		} else {
+			interleave = nil
+		}
+		pendingData = c.Data
 		k, w, nt := check(c)
 		if nt {
 			ev.NT(ev.Hash("rapid", c.Data, c.FaultAt, c.Sizes, c.Loader))
